@@ -145,6 +145,10 @@ type BatchCase struct {
 	// (router level and route level), 3 = two distinct instances are nested;
 	// every level logs its own started/finished records.
 	Nest int `json:"nest,omitempty"`
+	// HandlerMode: what the base logger's handler does with the attribute
+	// slice passed to WithAttrs (0 retains it, 1 copies and wipes it, 2 copies
+	// and rewrites its keys); slog lets the handler own that slice.
+	HandlerMode int `json:"handler_mode,omitempty"`
 }
 
 type logRec struct {
@@ -160,6 +164,7 @@ type recHandler struct {
 	recs  *[]logRec
 	attrs []slog.Attr
 	min   slog.Level // records below this level are not enabled
+	mode  int        // what WithAttrs does with the slice it is given: 0 retains it, 1 copies and wipes it, 2 copies and rewrites its keys
 }
 
 func (h *recHandler) Enabled(_ context.Context, l slog.Level) bool { return l >= h.min }
@@ -178,7 +183,20 @@ func (h *recHandler) Handle(_ context.Context, r slog.Record) error {
 	return nil
 }
 func (h *recHandler) WithAttrs(as []slog.Attr) slog.Handler {
-	return &recHandler{mu: h.mu, recs: h.recs, attrs: as, min: h.min}
+	// "The Handler owns the slice: it may retain, modify or discard it."
+	switch h.mode {
+	case 1: // copy, then wipe the slice it was given
+		own := slices.Clone(as)
+		clear(as)
+		return &recHandler{mu: h.mu, recs: h.recs, attrs: own, min: h.min, mode: h.mode}
+	case 2: // copy, then rewrite the keys of the slice it was given
+		own := slices.Clone(as)
+		for i := range as {
+			as[i].Key = "scribbled." + as[i].Key
+		}
+		return &recHandler{mu: h.mu, recs: h.recs, attrs: own, min: h.min, mode: h.mode}
+	}
+	return &recHandler{mu: h.mu, recs: h.recs, attrs: as, min: h.min, mode: h.mode}
 }
 func (h *recHandler) WithGroup(string) slog.Handler { return h }
 
@@ -285,7 +303,7 @@ func checkBatch(c BatchCase) error {
 	vp.CurrentJSON("c20.batch", c)
 	var mu sync.Mutex
 	var recs []logRec
-	mw := httputil.NewLogMiddleware(slog.New(&recHandler{mu: &mu, recs: &recs, min: slog.Level(c.BaseMin)}), slog.Level(c.Level))
+	mw := httputil.NewLogMiddleware(slog.New(&recHandler{mu: &mu, recs: &recs, min: slog.Level(c.BaseMin), mode: c.HandlerMode}), slog.Level(c.Level))
 	mwEnabled := c.Level >= c.BaseMin
 
 	n := len(c.Reqs)
@@ -322,7 +340,7 @@ func checkBatch(c BatchCase) error {
 			return mw.Wrap(mw.Wrap(inner))
 		case 3:
 			levels = 2
-			mw2 := httputil.NewLogMiddleware(slog.New(&recHandler{mu: &mu, recs: &recs, min: slog.Level(c.BaseMin)}), slog.Level(c.Level))
+			mw2 := httputil.NewLogMiddleware(slog.New(&recHandler{mu: &mu, recs: &recs, min: slog.Level(c.BaseMin), mode: c.HandlerMode}), slog.Level(c.Level))
 			return mw.Wrap(mw2.Wrap(inner))
 		}
 		return mw.Wrap(inner)
@@ -613,6 +631,7 @@ var batchProp = vp.Register(vp.Prop[BatchCase]{
 		n := rapid.IntRange(2, 12).Draw(t, "requests")
 		c := BatchCase{Level: rapid.SampledFrom([]int{-4, 0, 4}).Draw(t, "level"), BaseMin: rapid.SampledFrom([]int{-8, -8, -4, 0, 4, 8}).Draw(t, "basemin")}
 		c.Nest = rapid.SampledFrom([]int{0, 0, 0, 2, 2, 3}).Draw(t, "nest")
+		c.HandlerMode = rapid.SampledFrom([]int{0, 0, 1, 2}).Draw(t, "handlermode")
 		var acts []Act
 		for i := 0; i < n; i++ {
 			c.Reqs = append(c.Reqs, ReqSpec{
